@@ -4,8 +4,8 @@
 # Uses a scratch worktree outside /repo and /verif (default /tmp/mymut, must be clean).
 set -u
 ID="$1"; WT="${2:-/tmp/mymut}"
-S="/verif/seeded/$ID"
-lower=$(echo "$ID" | tr 'A-Z' 'a-z')
+S="/verif/seeded/$ID"; base_id="${ID%%-*}"
+lower=$(echo "$base_id" | tr 'A-Z' 'a-z')
 cd "$WT" || exit 2
 git checkout -q -- . ; git clean -fdq tests
 git apply "$S/patch.diff" || { echo "$ID: patch does not apply"; exit 2; }
